@@ -262,9 +262,6 @@ Proof.
     + apply nth_error_None; exact H.
 Qed.
 
-Definition call_oor (c : card) (i : nat) : bool :=
-  match c with CCall _ args | CCallNative _ args => length args <? i | _ => false end.
-
 Definition insert_post (c : card) (i : nat) (x : card) (r : ires) : Prop :=
   match r with
   | IOk c' => label_of c' = label_of c /\
@@ -290,17 +287,16 @@ Ltac vec_insert_tac H :=
   | |- context [do_vec_insert ?mk ?l ?j ?x] => rewrite (do_vec_insert_spec mk l j x H); cbn; try solve [auto]
   end.
 
-Lemma insert_child_spec c i x : call_oor c i = false -> insert_post c i x (insert_child c i x).
+Lemma insert_child_spec c i x : insert_post c i x (insert_child c i x).
 Proof.
-  intros OOR.
   destruct c; rewrite ?insert_child_tri; cbn [insert_child];
     try (apply via_mut_insert_spec; reflexivity);
     unfold insert_post; cbn [iter_children label_of list_pos shape_of length];
     try (split; [reflexivity|lia]).
-  - (* CallNative *) cbn in OOR. apply Nat.ltb_ge in OOR.
-    destruct (Nat.leb_spec i (length args)); [|lia]. vec_insert_tac OOR.
-  - (* Call *) cbn in OOR. apply Nat.ltb_ge in OOR.
-    destruct (Nat.leb_spec i (length args)); [|lia]. vec_insert_tac OOR.
+  - (* CallNative *)
+    destruct (Nat.ltb_spec (length args) i) as [H|H]; [auto|]. vec_insert_tac H.
+  - (* Call *)
+    destruct (Nat.ltb_spec (length args) i) as [H|H]; [auto|]. vec_insert_tac H.
   - (* DynamicCall *)
     destruct i as [|i]; [cbn; auto with arith|].
     cbn [Nat.eqb Nat.sub Nat.leb]. rewrite Nat.sub_0_r.
@@ -317,10 +313,14 @@ Proof.
     destruct (Nat.ltb_spec (length cards) i) as [H|H]; [auto|]. vec_insert_tac H.
 Qed.
 
-Lemma insert_child_call_oor c i x : call_oor c i = true -> insert_child c i x = IOk c.
+(* what the repair bf83e3d changed *)
+Lemma insert_child_legacy_same c i x :
+  (match c with CCall _ args | CCallNative _ args => i <= length args | _ => True end) ->
+  insert_child_legacy c i x = insert_child c i x.
 Proof.
-  destruct c; cbn; try discriminate; intros H; apply Nat.ltb_lt in H;
-    destruct (Nat.leb_spec i (length args)); try lia; reflexivity.
+  destruct c; cbn [insert_child_legacy]; try reflexivity; intros H; cbn [insert_child];
+    destruct (Nat.leb_spec i (length args)); try lia;
+    destruct (Nat.ltb_spec (length args) i); try lia; reflexivity.
 Qed.
 
 Lemma replace_child_spec c i x :
@@ -372,14 +372,14 @@ Proof.
   - rewrite H. reflexivity.
 Qed.
 
-Lemma node_insert_refines c i x : call_oor c i = false ->
+Lemma node_insert_refines c i x :
   match insert_child c i x with
   | IOk c' => node_insert (to_rose x) i (to_rose c) = Some (to_rose c', tt)
   | IErr y => y = x /\ node_insert (to_rose x) i (to_rose c) = None
   | IPanic => False
   end.
 Proof.
-  intros OOR. pose proof (insert_child_spec c i x OOR) as H. rewrite (to_rose_eq c).
+  pose proof (insert_child_spec c i x) as H. rewrite (to_rose_eq c).
   unfold node_insert, insert_post in *. rewrite map_length.
   destruct (insert_child c i x) as [c'|y|]; auto.
   - destruct H as (L & H). rewrite (to_rose_eq c'), L. destruct (list_pos (label_of c) i).
@@ -646,24 +646,14 @@ Proof.
   destruct G as (r' & ->). reflexivity.
 Qed.
 
-Lemma call_oor_rose c i :
-  call_oor c i =
-  match to_rose c with
-  | RNode (LCall _) kids | RNode (LCallNative _) kids => length kids <? i
-  | _ => false
-  end.
-Proof. destruct c; cbn; rewrite ?to_rose_go, ?map_length; reflexivity. Qed.
-
-(* outside the A-26 class *)
 Theorem insert_card_refines m idx x :
-  known_call_insert m (OpInsert idx x) = false ->
   match insert_card m idx x with
   | ROk (m', _) => spec_insert (to_rmod m) idx (to_rose x) = SpOk (to_rmod m', tt)
   | RErr e => spec_insert (to_rmod m) idx (to_rose x) = SpErr e
   | RPanic => False
   end.
 Proof.
-  intros K. unfold insert_card, spec_insert.
+  unfold insert_card, spec_insert.
   destruct (nth_error (m_functions m) (ci_function idx)) as [[name fn]|] eqn:EF.
   2:{ unfold spec_edit. cbn [to_rmod rm_fns]. rewrite nth_error_map, EF. reflexivity. }
   destruct (Nat.eqb_spec (length (ci_indices idx)) 1) as [H1|H1].
@@ -676,14 +666,8 @@ Proof.
     + destruct (Nat.leb_spec i0 (length (f_cards fn))); [|lia].
       rewrite (to_rmod_set_fn _ _ _ _ _ EF), map_insert_nth. reflexivity.
   - apply (edit_parent_refines (fun _ : unit => tt)); auto.
-    intros len1 i card c L2 -> -> EC R. unfold k_refines_at.
-    assert (OOR : call_oor c (last (ci_indices idx) 0) = false).
-    { unfold known_call_insert in K.
-      destruct (ci_indices idx) as [|b [|c2 rest]] eqn:EI; [cbn in L2; lia|cbn in L2; lia|].
-      rewrite removelast_cons2 in *. cbn [hd tl] in EC, R.
-      rewrite (spec_get_reach m _ name fn b _ card c EF EC R) in K.
-      rewrite call_oor_rose. destruct (to_rose c) as [[] kids]; auto. }
-    pose proof (node_insert_refines c (last (ci_indices idx) 0) x OOR) as H.
+    intros len1 i card c _ -> -> _ _. unfold k_refines_at.
+    pose proof (node_insert_refines c (last (ci_indices idx) 0) x) as H.
     destruct (insert_child c (last (ci_indices idx) 0) x) as [c'|y|]; auto.
     destruct H as [_ H]. auto.
 Qed.
@@ -710,17 +694,11 @@ Qed.
 Lemma mk_index_eta idx : mk_index (ci_function idx) (ci_indices idx) = idx.
 Proof. destruct idx; reflexivity. Qed.
 
-(* get_card: same card as the specification; on a miss the same error, except that a miss below
-   the top level is reported one level lower (the known_get_depth class) *)
+(* get_card: the specification, for every module and index *)
 Theorem get_card_refines m idx :
   match get_card m idx with
   | ROk c => spec_get (to_rmod m) idx = SpOk (to_rose c)
-  | RErr e =>
-      match spec_get (to_rmod m) idx with
-      | SpErr (CardNotFound (S q)) => e = CardNotFound q
-      | SpErr e' => e = e'
-      | SpOk _ => False
-      end
+  | RErr e => spec_get (to_rmod m) idx = SpErr e
   | RPanic => False
   end.
 Proof.
@@ -733,35 +711,32 @@ Proof.
   change {| ci_function := ci_function idx; ci_indices := b :: path |} with (mk_index (ci_function idx) (b :: path)).
   rewrite (spec_get_unfold m _ name fn b path EF), slice_tail.
   destruct (nth_error (f_cards fn) b) as [card|]; [|reflexivity].
-  pose proof (descend_refines path 0 1 card) as H. destruct (descend path 0 card) as [c|e|]; auto.
+  pose proof (descend_refines path 1 1 card) as H. destruct (descend path 1 card) as [c|e|]; auto.
   - rewrite H. reflexivity.
   - destruct H as (k & -> & H). rewrite H. reflexivity.
 Qed.
 
-Theorem get_card_ok_iff m idx c :
-  get_card m idx = ROk c <-> get_card_mut m idx = ROk c.
+(* the two lookups agree, results and errors *)
+Theorem get_card_get_card_mut m idx : get_card m idx = get_card_mut m idx.
 Proof.
   pose proof (get_card_refines m idx) as H1. pose proof (get_card_mut_refines m idx) as H2.
-  split; intros E; rewrite E in *.
-  - destruct (get_card_mut m idx) as [c'|e|]; [|rewrite H1 in H2; discriminate|contradiction].
-    rewrite H1 in H2. injection H2 as H2. apply to_rose_inj in H2. congruence.
-  - destruct (get_card m idx) as [c'|e|]; [| |contradiction].
-    + rewrite H2 in H1. injection H1 as H1. apply to_rose_inj in H1. congruence.
-    + rewrite H2 in H1. contradiction.
+  destruct (get_card m idx) as [c|e|], (get_card_mut m idx) as [c'|e'|]; try contradiction; try congruence.
+  rewrite H1 in H2. injection H2 as H2. apply to_rose_inj in H2. congruence.
 Qed.
+
+Theorem get_card_ok_iff m idx c :
+  get_card m idx = ROk c <-> get_card_mut m idx = ROk c.
+Proof. rewrite get_card_get_card_mut. reflexivity. Qed.
 
 (* ---- one call: the model refines the specification outside the known classes (all but swap/walk) *)
 
 Lemma step_refines_get m idx :
-  known_get_depth m (OpGet idx) = false ->
   spec_step (to_rmod m) (OpGet idx) = (to_rmod m, abs_obs (snd (step m (OpGet idx)))) /\
   fst (step m (OpGet idx)) = m.
 Proof.
-  intros K. split; [|reflexivity]. cbn [spec_step step snd]. f_equal.
-  pose proof (get_card_refines m idx) as H. unfold known_get_depth in K.
-  destruct (get_card m idx) as [c|e|]; [rewrite H; reflexivity| |contradiction].
-  destruct (spec_get (to_rmod m) idx) as [r|[| [|q] | |]]; try contradiction; try (subst; reflexivity).
-  discriminate.
+  split; [|reflexivity]. cbn [spec_step step snd]. f_equal.
+  pose proof (get_card_refines m idx) as H.
+  destruct (get_card m idx) as [c|e|]; [rewrite H; reflexivity|rewrite H; reflexivity|contradiction].
 Qed.
 
 Lemma step_refines_get_mut m idx :
@@ -790,11 +765,10 @@ Proof.
 Qed.
 
 Lemma step_refines_insert m idx x :
-  known_call_insert m (OpInsert idx x) = false ->
   spec_step (to_rmod m) (OpInsert idx x) =
   (to_rmod (fst (step m (OpInsert idx x))), abs_obs (snd (step m (OpInsert idx x)))).
 Proof.
-  intros K. cbn [spec_step step]. pose proof (insert_card_refines m idx x K) as H.
+  cbn [spec_step step]. pose proof (insert_card_refines m idx x) as H.
   destruct (insert_card m idx x) as [[m' []]|e|]; [rewrite H; reflexivity|rewrite H; reflexivity|contradiction].
 Qed.
 
@@ -913,15 +887,23 @@ Proof.
 Qed.
 
 (* a swap that reports an error leaves the module as it was (the restore path included) *)
-Theorem swap_fail_unchanged m a b m' e :
-  swap_cards m a b = (m', SwErr e) -> m' = m.
+Lemma swap_legacy_fail_unchanged m a b m' e :
+  swap_cards_legacy m a b = (m', SwErr e) -> m' = m.
 Proof.
-  unfold swap_cards. destruct (if ci_ltb a b then (b, a) else (a, b)) as [lhs rhs].
+  unfold swap_cards_legacy. destruct (if ci_ltb a b then (b, a) else (a, b)) as [lhs rhs].
   destruct (replace_card m rhs CScalarNil) as [[m1 rc]|e1|] eqn:E1; [|intros [= <- _]; reflexivity|discriminate].
   destruct (get_card m1 lhs) as [c|e2|]; [| |discriminate].
   - destruct (replace_card m1 lhs rc) as [[m2 lc]|?|]; try discriminate.
     destruct (replace_card m2 rhs lc) as [[m3 ?]|?|]; discriminate.
   - rewrite (replace_back _ _ _ _ _ E1). intros [= <- _]. reflexivity.
+Qed.
+
+Theorem swap_fail_unchanged m a b m' e :
+  swap_cards m a b = (m', SwErr e) -> m' = m.
+Proof.
+  unfold swap_cards. destruct (ci_eqb a b).
+  - intros [= <- _]. reflexivity.
+  - apply swap_legacy_fail_unchanged.
 Qed.
 
 (* every call that reports an error leaves the module unchanged *)
@@ -1076,38 +1058,591 @@ Proof.
   split; [exact G|]. apply get_card_ok_iff. exact G.
 Qed.
 
-(* ---- witnesses for the known-finding classes ---- *)
+(* ---- algebra of subtree lookup / subtree replacement on rose trees ---- *)
+
+Fixpoint rsub (p : list nat) (r : rose) : option rose :=
+  match p with
+  | [] => Some r
+  | i :: p' => match nth_error (rkids r) i with Some ch => rsub p' ch | None => None end
+  end.
+
+Fixpoint rput (p : list nat) (x : rose) (r : rose) : rose :=
+  match p with
+  | [] => x
+  | i :: p' =>
+      match nth_error (rkids r) i with
+      | Some ch => RNode (rlabel r) (upd (rkids r) i (rput p' x ch))
+      | None => r
+      end
+  end.
+
+Lemma rsub_rput_same p : forall r o x, rsub p r = Some o -> rsub p (rput p x r) = Some x.
+Proof.
+  induction p as [|i p IH]; intros [l kids] o x; cbn [rsub rput rkids rlabel]; [reflexivity|].
+  destruct (nth_error kids i) as [ch|] eqn:E; [|discriminate]. intros H. cbn [rkids].
+  rewrite nth_error_upd_same by (eapply nth_error_Some_lt; eauto). eapply IH; eauto.
+Qed.
+
+Lemma rsub_rput_other p : forall q r x,
+  is_prefix p q = false -> is_prefix q p = false -> rsub q (rput p x r) = rsub q r.
+Proof.
+  induction p as [|i p IH]; intros [|j q] [l kids] x; cbn [is_prefix]; try discriminate.
+  intros H1 H2. cbn [rsub rput rkids rlabel].
+  destruct (nth_error kids i) as [ch|] eqn:E; [|reflexivity]. cbn [rkids].
+  destruct (Nat.eqb_spec i j) as [->|N].
+  - rewrite Nat.eqb_refl in H2. cbn [andb] in *.
+    rewrite nth_error_upd_same by (eapply nth_error_Some_lt; eauto). rewrite E. apply IH; auto.
+  - rewrite nth_error_upd_other by exact N. reflexivity.
+Qed.
+
+Lemma rput_rput_same p : forall r x y, rput p y (rput p x r) = rput p y r.
+Proof.
+  induction p as [|i p IH]; intros [l kids] x y; cbn [rput rkids rlabel]; [reflexivity|].
+  destruct (nth_error kids i) as [ch|] eqn:E; cbn [rput rkids rlabel]; [|rewrite E; reflexivity].
+  rewrite nth_error_upd_same by (eapply nth_error_Some_lt; eauto). rewrite upd_upd, IH. reflexivity.
+Qed.
+
+Lemma rput_comm p : forall q r x y,
+  is_prefix p q = false -> is_prefix q p = false ->
+  rput p x (rput q y r) = rput q y (rput p x r).
+Proof.
+  induction p as [|i p IH]; intros [|j q] [l kids] x y; cbn [is_prefix]; try discriminate.
+  intros H1 H2. cbn [rput rkids rlabel].
+  destruct (Nat.eqb_spec i j) as [->|N].
+  - rewrite Nat.eqb_refl in H2. cbn [andb] in *.
+    destruct (nth_error kids j) as [ch|] eqn:E; cbn [rput rkids rlabel]; [|rewrite E; reflexivity].
+    rewrite !nth_error_upd_same by (eapply nth_error_Some_lt; eauto). rewrite !upd_upd, IH by auto. reflexivity.
+  - destruct (nth_error kids j) as [cj|] eqn:Ej, (nth_error kids i) as [ci|] eqn:Ei; cbn [rput rkids rlabel];
+      rewrite ?nth_error_upd_other by auto; rewrite ?Ei, ?Ej; try reflexivity.
+    rewrite upd_comm by auto. reflexivity.
+Qed.
+
+Lemma rput_rsub_id p : forall r o, rsub p r = Some o -> rput p o r = r.
+Proof.
+  induction p as [|i p IH]; intros [l kids] o; cbn [rsub rput rkids rlabel]; [congruence|].
+  destruct (nth_error kids i) as [ch|] eqn:E; intros H; [|reflexivity].
+  rewrite (IH _ _ H), (upd_nth_error _ _ _ E). reflexivity.
+Qed.
+
+Lemma rsub_app p : forall q r, rsub (p ++ q) r = match rsub p r with Some s => rsub q s | None => None end.
+Proof.
+  induction p as [|i p IH]; intros q r; cbn [app rsub]; [reflexivity|].
+  destruct (nth_error (rkids r) i); auto.
+Qed.
+
+Lemma is_prefix_app p : forall q, is_prefix p q = true -> exists s, q = p ++ s.
+Proof.
+  induction p as [|i p IH]; intros q; [intros _; exists q; reflexivity|]. destruct q as [|j q]; cbn [is_prefix]; [discriminate|].
+  intros H. apply andb_true_iff in H. destruct H as [H1 H2]. apply Nat.eqb_eq in H1. subst.
+  destruct (IH _ H2) as (s & ->). exists s. reflexivity.
+Qed.
+
+Lemma is_prefix_refl p : is_prefix p p = true.
+Proof. induction p; cbn; rewrite ?Nat.eqb_refl; auto. Qed.
+
+(* rget / rmodify-with-replace in terms of rsub / rput *)
+Lemma rget_rsub p : forall d r,
+  match rget p d r with SOk y => rsub p r = Some y | SMiss _ => rsub p r = None end.
+Proof.
+  induction p as [|i p IH]; intros d r; cbn [rget rsub]; [reflexivity|].
+  destruct (nth_error (rkids r) i); [apply IH|reflexivity].
+Qed.
+
+Lemma rmodify_replace_rput p : forall d r x,
+  rmodify p d (node_replace x) r =
+  match rget p d r with SOk o => SOk (rput p x r, o) | SMiss q => SMiss q end.
+Proof.
+  induction p as [|i p IH]; intros d r x; cbn [rmodify rget rput]; [reflexivity|].
+  destruct (nth_error (rkids r) i) as [ch|]; [|reflexivity]. rewrite IH.
+  destruct (rget p (S d) ch); reflexivity.
+Qed.
+
+(* ---- the module as one tree: the functions are the children of a virtual root ---- *)
+
+Definition gp (idx : card_index) : list nat := ci_function idx :: ci_indices idx.
+Definition root (M : rmodule) : rose := RNode LArray (rm_fns M).
+Definition with_fns (M : rmodule) (fns : list rose) : rmodule :=
+  {| rm_subs := rm_subs M; rm_fns := fns; rm_imports := rm_imports M |}.
+
+Definition sub (M : rmodule) (idx : card_index) : option rose :=
+  match ci_indices idx with [] => None | _ => rsub (gp idx) (root M) end.
+Definition put (M : rmodule) (idx : card_index) (x : rose) : rmodule :=
+  with_fns M (rkids (rput (gp idx) x (root M))).
+
+Lemma spec_get_char M idx :
+  spec_get M idx =
+  match nth_error (rm_fns M) (ci_function idx) with
+  | None => SpErr FunctionNotFound
+  | Some body =>
+      match ci_indices idx with
+      | [] => SpErr InvalidIndex
+      | _ => match rget (ci_indices idx) 0 body with
+             | SOk y => SpOk y
+             | SMiss q => SpErr (CardNotFound q)
+             end
+      end
+  end.
+Proof.
+  unfold spec_get, spec_edit. destruct (nth_error (rm_fns M) (ci_function idx)) as [body|]; [|reflexivity].
+  destruct (ci_indices idx) as [|b path] eqn:E; [reflexivity|].
+  pose proof (rmodify_get (b :: path) 0 body) as G. destruct (rget (b :: path) 0 body).
+  - destruct G as (r' & ->). reflexivity.
+  - rewrite G. reflexivity.
+Qed.
+
+Lemma spec_replace_char M idx x :
+  spec_replace M idx x =
+  match nth_error (rm_fns M) (ci_function idx) with
+  | None => SpErr FunctionNotFound
+  | Some body =>
+      match ci_indices idx with
+      | [] => SpErr InvalidIndex
+      | _ => match rget (ci_indices idx) 0 body with
+             | SOk o => SpOk (rset_fn M (ci_function idx) (rput (ci_indices idx) x body), o)
+             | SMiss q => SpErr (CardNotFound q)
+             end
+      end
+  end.
+Proof.
+  unfold spec_replace, spec_edit. destruct (nth_error (rm_fns M) (ci_function idx)) as [body|]; [|reflexivity].
+  destruct (ci_indices idx) as [|b path] eqn:E; [reflexivity|].
+  rewrite rmodify_replace_rput. destruct (rget (b :: path) 0 body); reflexivity.
+Qed.
+
+Lemma spec_get_sub M idx :
+  match spec_get M idx with SpOk y => sub M idx = Some y | SpErr _ => sub M idx = None end.
+Proof.
+  rewrite spec_get_char. unfold sub, gp, root. cbn [rsub rkids].
+  destruct (nth_error (rm_fns M) (ci_function idx)) as [body|].
+  - destruct (ci_indices idx) as [|b path] eqn:E; [reflexivity|].
+    pose proof (rget_rsub (b :: path) 0 body) as G. destruct (rget (b :: path) 0 body); exact G.
+  - destruct (ci_indices idx); reflexivity.
+Qed.
+
+Lemma spec_replace_put M idx x :
+  match spec_replace M idx x with
+  | SpOk (M', o) => sub M idx = Some o /\ M' = put M idx x
+  | SpErr e => sub M idx = None /\ spec_get M idx = SpErr e
+  end.
+Proof.
+  pose proof (spec_get_sub M idx) as S. rewrite spec_replace_char. rewrite spec_get_char in *.
+  unfold put, gp, root. cbn [rput rkids rlabel].
+  destruct (nth_error (rm_fns M) (ci_function idx)) as [body|]; [|auto].
+  destruct (ci_indices idx) as [|b path] eqn:E; [auto|].
+  destruct (rget (b :: path) 0 body); auto.
+Qed.
+
+Lemma spec_get_of_sub M idx y : sub M idx = Some y -> spec_get M idx = SpOk y.
+Proof.
+  intros H. pose proof (spec_get_sub M idx) as S. destruct (spec_get M idx); congruence.
+Qed.
+
+Lemma spec_replace_of_sub M idx x o : sub M idx = Some o -> spec_replace M idx x = SpOk (put M idx x, o).
+Proof.
+  intros H. pose proof (spec_replace_put M idx x) as S. destruct (spec_replace M idx x) as [[M' o']|e].
+  - destruct S as [S1 ->]. congruence.
+  - destruct S; congruence.
+Qed.
+
+Lemma root_put M idx x : ci_indices idx <> [] -> root (put M idx x) = rput (gp idx) x (root M).
+Proof.
+  intros _. unfold put, root, with_fns, gp. cbn [rm_fns rput rkids rlabel].
+  destruct (nth_error (rm_fns M) (ci_function idx)); reflexivity.
+Qed.
+
+Lemma put_ext M N : rm_subs M = rm_subs N -> rm_imports M = rm_imports N -> root M = root N -> M = N.
+Proof. destruct M, N. unfold root. cbn. intros -> -> [= ->]. reflexivity. Qed.
+
+Lemma sub_nonempty M idx y : sub M idx = Some y -> ci_indices idx <> [].
+Proof. unfold sub. destruct (ci_indices idx); [discriminate|discriminate]. Qed.
+
+(* the laws, on modules *)
+Lemma gp_related a b :
+  related a b = is_prefix (gp a) (gp b) || is_prefix (gp b) (gp a).
+Proof.
+  unfold related, gp. cbn [is_prefix]. rewrite (Nat.eqb_sym (ci_function b)).
+  destruct (ci_function a =? ci_function b); reflexivity.
+Qed.
+
+Lemma sub_put_same M i o x : sub M i = Some o -> sub (put M i x) i = Some x.
+Proof.
+  intros H. pose proof (sub_nonempty _ _ _ H) as NE. unfold sub in *.
+  destruct (ci_indices i) eqn:E; [discriminate|]. rewrite root_put by congruence.
+  eapply rsub_rput_same; eauto.
+Qed.
+
+Lemma sub_put_other M i j x : ci_indices i <> [] -> related i j = false -> sub (put M i x) j = sub M j.
+Proof.
+  intros NE R. rewrite gp_related in R. apply orb_false_elim in R. destruct R as [R1 R2].
+  unfold sub. destruct (ci_indices j) eqn:E; [reflexivity|]. rewrite root_put by exact NE.
+  apply rsub_rput_other; auto.
+Qed.
+
+Lemma put_put_same M i x y : ci_indices i <> [] -> put (put M i x) i y = put M i y.
+Proof.
+  intros NE. apply put_ext; try reflexivity. rewrite !root_put by exact NE. apply rput_rput_same.
+Qed.
+
+Lemma put_comm M i j x y : ci_indices i <> [] -> ci_indices j <> [] -> related i j = false ->
+  put (put M i x) j y = put (put M j y) i x.
+Proof.
+  intros NI NJ R. rewrite gp_related in R. apply orb_false_elim in R. destruct R as [R1 R2].
+  apply put_ext; try reflexivity. rewrite !root_put by assumption. apply rput_comm; auto.
+Qed.
+
+Lemma put_sub_id M i o : sub M i = Some o -> put M i o = M.
+Proof.
+  intros H. pose proof (sub_nonempty _ _ _ H) as NE. apply put_ext; try reflexivity.
+  rewrite root_put by exact NE. unfold sub in H. destruct (ci_indices i); [discriminate|].
+  apply rput_rsub_id; exact H.
+Qed.
+
+(* ---- the CardIndex order ---- *)
+Lemma indices_eqb_eq a : forall b, indices_eqb a b = true <-> a = b.
+Proof.
+  induction a as [|x a IH]; intros [|y b]; cbn; split; intros H; try discriminate; auto.
+  - apply andb_true_iff in H. destruct H as [H1 H2]. apply Nat.eqb_eq in H1. apply IH in H2. congruence.
+  - injection H as -> ->. rewrite Nat.eqb_refl. apply IH. reflexivity.
+Qed.
+
+Lemma ci_eqb_eq a b : ci_eqb a b = true <-> a = b.
+Proof.
+  unfold ci_eqb. destruct a as [f p], b as [g q]. cbn. split; intros H.
+  - apply andb_true_iff in H. destruct H as [H1 H2]. apply Nat.eqb_eq in H1. apply indices_eqb_eq in H2. congruence.
+  - injection H as -> ->. rewrite Nat.eqb_refl. apply indices_eqb_eq. reflexivity.
+Qed.
+
+Lemma ci_eqb_refl a : ci_eqb a a = true.
+Proof. apply ci_eqb_eq. reflexivity. Qed.
+
+Lemma ci_eqb_sym a b : ci_eqb a b = ci_eqb b a.
+Proof.
+  destruct (ci_eqb a b) eqn:E1, (ci_eqb b a) eqn:E2; auto.
+  - apply ci_eqb_eq in E1. subst. rewrite ci_eqb_refl in E2. discriminate.
+  - apply ci_eqb_eq in E2. subst. rewrite ci_eqb_refl in E1. discriminate.
+Qed.
+
+Lemma indices_cmp_antisym a : forall b, indices_cmp b a = CompOpp (indices_cmp a b).
+Proof.
+  induction a as [|x a IH]; intros [|y b]; cbn [indices_cmp length]; try reflexivity.
+  - rewrite (Nat.compare_antisym x y). destruct (x ?= y); cbn; auto.
+Qed.
+
+Lemma indices_cmp_prefix p : forall s, s <> [] -> indices_cmp p (p ++ s) = Lt.
+Proof.
+  induction p as [|x p IH]; intros s NE; cbn [app indices_cmp].
+  - destruct s; [congruence|reflexivity].
+  - rewrite Nat.compare_refl. apply IH; exact NE.
+Qed.
+
+Lemma ci_ltb_asym a b : ci_ltb a b = true -> ci_ltb b a = false.
+Proof.
+  unfold ci_ltb, ci_cmp. rewrite (Nat.compare_antisym (ci_function a) (ci_function b)).
+  destruct (ci_function a ?= ci_function b); cbn; try discriminate; auto.
+  rewrite (indices_cmp_antisym (ci_indices a) (ci_indices b)).
+  destruct (indices_cmp (ci_indices a) (ci_indices b)); cbn; try discriminate; auto.
+Qed.
+
+(* a strict ancestor is smaller *)
+Lemma ancestor_ltb a b s : ci_function a = ci_function b -> ci_indices b = ci_indices a ++ s -> s <> [] ->
+  ci_ltb a b = true.
+Proof.
+  intros F I NE. unfold ci_ltb, ci_cmp. rewrite F, Nat.compare_refl, I, indices_cmp_prefix by exact NE. reflexivity.
+Qed.
+
+Definition anc (hi lo : card_index) : Prop :=
+  related hi lo = true -> exists i q, gp hi = gp lo ++ i :: q.
+
+Lemma related_sym a b : related a b = related b a.
+Proof. unfold related. rewrite Nat.eqb_sym, orb_comm. reflexivity. Qed.
+
+Lemma related_cases hi lo :
+  ci_eqb hi lo = false -> ci_ltb hi lo = false -> anc hi lo.
+Proof.
+  intros NE NL R. unfold related in R. apply andb_true_iff in R. destruct R as [F R].
+  apply Nat.eqb_eq in F. apply orb_true_iff in R. destruct R as [R|R].
+  - (* hi would be an ancestor of lo: then hi < lo *)
+    apply is_prefix_app in R. destruct R as (s & Hs). destruct s as [|i q].
+    + rewrite app_nil_r in Hs. exfalso. assert (hi = lo) by (destruct hi, lo; cbn in *; congruence).
+      subst. rewrite ci_eqb_refl in NE. discriminate.
+    + rewrite (ancestor_ltb hi lo (i :: q) F Hs) in NL by discriminate. discriminate.
+  - apply is_prefix_app in R. destruct R as (s & Hs). destruct s as [|i q].
+    + rewrite app_nil_r in Hs. exfalso. assert (hi = lo) by (destruct hi, lo; cbn in *; congruence).
+      subst. rewrite ci_eqb_refl in NE. discriminate.
+    + exists i, q. unfold gp. rewrite F, Hs. reflexivity.
+Qed.
+
+(* ---- the calls of the model in terms of sub / put ---- *)
+Lemma replace_card_sp m idx x :
+  match replace_card m idx x with
+  | ROk (m', old) => sub (to_rmod m) idx = Some (to_rose old) /\ to_rmod m' = put (to_rmod m) idx (to_rose x)
+  | RErr e => sub (to_rmod m) idx = None /\ spec_get (to_rmod m) idx = SpErr e
+  | RPanic => False
+  end.
+Proof.
+  pose proof (replace_card_refines m idx x) as H. pose proof (spec_replace_put (to_rmod m) idx (to_rose x)) as S.
+  destruct (replace_card m idx x) as [[m' old]|e|]; auto; rewrite H in S; auto.
+Qed.
+
+Lemma get_card_sp m idx :
+  match get_card m idx with
+  | ROk c => sub (to_rmod m) idx = Some (to_rose c)
+  | RErr e => sub (to_rmod m) idx = None /\ spec_get (to_rmod m) idx = SpErr e
+  | RPanic => False
+  end.
+Proof.
+  pose proof (get_card_refines m idx) as H. pose proof (spec_get_sub (to_rmod m) idx) as S.
+  destruct (get_card m idx) as [c|e|]; auto; rewrite H in S; auto.
+Qed.
+
+Lemma spec_swap_char M a b :
+  spec_swap M a b =
+  match sub M a, sub M b with
+  | Some ra, Some rb =>
+      if ci_eqb a b then Some M
+      else if related a b then None
+      else Some (put (put M a rb) b ra)
+  | _, _ => None
+  end.
+Proof.
+  unfold spec_swap. pose proof (spec_get_sub M a) as Sa. pose proof (spec_get_sub M b) as Sb.
+  destruct (spec_get M a) as [ra|ea]; rewrite Sa; [|reflexivity].
+  destruct (spec_get M b) as [rb|eb]; rewrite Sb; [|reflexivity].
+  destruct (ci_eqb a b); [reflexivity|]. destruct (related a b) eqn:R; [reflexivity|].
+  rewrite (spec_replace_of_sub M a rb ra Sa).
+  assert (Sb' : sub (put M a rb) b = Some rb).
+  { rewrite sub_put_other; auto. eapply sub_nonempty; eauto. }
+  rewrite (spec_replace_of_sub _ b ra rb Sb'). reflexivity.
+Qed.
+
+Lemma spec_swap_sym M a b : spec_swap M a b = spec_swap M b a.
+Proof.
+  rewrite !spec_swap_char. destruct (sub M a) as [ra|] eqn:Sa, (sub M b) as [rb|] eqn:Sb; auto.
+  rewrite (ci_eqb_sym b a), (related_sym b a). destruct (ci_eqb a b); auto. destruct (related a b) eqn:R; auto.
+  rewrite put_comm; auto; eapply sub_nonempty; eauto.
+Qed.
+
+(* the body of swap_cards once the two indices are ordered *)
+Definition swap_body (m : module) (lhs rhs : card_index) : module * swap_res :=
+  match replace_card m rhs CScalarNil with
+  | RErr e => (m, SwErr (SwapFetchError rhs e))
+  | RPanic => (m, SwPanic)
+  | ROk (m1, rhs_card) =>
+      match get_card m1 lhs with
+      | RPanic => (m1, SwPanic)
+      | RErr _ =>
+          match replace_card m1 rhs rhs_card with
+          | ROk (m2, _) => (m2, SwErr InvalidSwap)
+          | _ => (m1, SwPanic)
+          end
+      | ROk _ =>
+          match replace_card m1 lhs rhs_card with
+          | ROk (m2, lhs_card) =>
+              match replace_card m2 rhs lhs_card with
+              | ROk (m3, _) => (m3, SwOk)
+              | _ => (m2, SwPanic)
+              end
+          | _ => (m1, SwPanic)
+          end
+      end
+  end.
+
+Lemma swap_legacy_body m a b :
+  swap_cards_legacy m a b = if ci_ltb a b then swap_body m b a else swap_body m a b.
+Proof. unfold swap_cards_legacy. destruct (ci_ltb a b); reflexivity. Qed.
+
+Definition swap_post (m : module) (a b lo : card_index) (res : module * swap_res) : Prop :=
+  match snd res with
+  | SwOk => spec_swap (to_rmod m) a b = Some (to_rmod (fst res))
+  | SwErr e => spec_swap (to_rmod m) a b = None /\ fst res = m /\
+               (e = InvalidSwap \/ exists e', e = SwapFetchError lo e' /\ spec_get (to_rmod m) lo = SpErr e')
+  | SwPanic => False
+  end.
+
+Lemma swap_body_refines m hi lo :
+  ci_eqb hi lo = false -> anc hi lo -> swap_post m hi lo lo (swap_body m hi lo).
+Proof.
+  intros NE ANC. unfold swap_body, swap_post.
+  pose proof (replace_card_sp m lo CScalarNil) as R1.
+  destruct (replace_card m lo CScalarNil) as [[m1 rc]|e|] eqn:E1; [|cbn [fst snd]|contradiction].
+  2:{ destruct R1 as [R1 R1']. split; [|split; [reflexivity|right; eauto]].
+      rewrite spec_swap_char. rewrite R1. destruct (sub (to_rmod m) hi); reflexivity. }
+  destruct R1 as [Slo M1].
+  assert (NElo : ci_indices lo <> []) by (eapply sub_nonempty; eauto).
+  assert (Slo1 : sub (to_rmod m1) lo = Some (RNode LNil [])).
+  { rewrite M1. change (to_rose CScalarNil) with (RNode LNil []). eapply sub_put_same; eauto. }
+  pose proof (get_card_sp m1 hi) as R2.
+  destruct (get_card m1 hi) as [c|e2|]; [| |contradiction].
+  - (* lhs reachable: the two cards are unrelated *)
+    assert (UN : related hi lo = false).
+    { destruct (related hi lo) eqn:R; [|reflexivity]. exfalso.
+      destruct (ANC R) as (i & q & G). unfold sub in R2, Slo1.
+      destruct (ci_indices hi) eqn:EH; [discriminate|]. destruct (ci_indices lo) eqn:EL; [congruence|].
+      rewrite G, rsub_app, Slo1 in R2. cbn in R2. destruct i; discriminate. }
+    assert (UN' : related lo hi = false) by (rewrite related_sym; exact UN).
+    assert (Shi : sub (to_rmod m) hi = Some (to_rose c)).
+    { rewrite <- R2, M1. symmetry. apply sub_put_other; auto. }
+    assert (NEhi : ci_indices hi <> []) by (eapply sub_nonempty; eauto).
+    pose proof (replace_card_sp m1 hi rc) as R3.
+    destruct (replace_card m1 hi rc) as [[m2 lc]|e3|]; [| destruct R3; congruence | contradiction].
+    destruct R3 as [R3 M2]. assert (LC : to_rose lc = to_rose c) by congruence.
+    pose proof (replace_card_sp m2 lo lc) as R4.
+    assert (Slo2 : sub (to_rmod m2) lo = Some (RNode LNil [])).
+    { rewrite M2, sub_put_other; auto. }
+    destruct (replace_card m2 lo lc) as [[m3 o3]|e4|]; [| destruct R4; congruence | contradiction].
+    destruct R4 as [_ M3]. cbn [fst snd].
+    rewrite spec_swap_char. rewrite Shi, Slo, NE, UN. f_equal.
+    rewrite M3, M2, M1, LC. change (to_rose CScalarNil) with (RNode LNil []).
+    rewrite (put_comm (to_rmod m) lo hi) by auto. rewrite put_put_same by auto. reflexivity.
+  - (* lhs not reachable: restore *)
+    destruct R2 as [R2 _]. rewrite (replace_back _ _ _ _ _ E1). cbn [fst snd].
+    split; [|split; [reflexivity|left; reflexivity]].
+    rewrite spec_swap_char. destruct (sub (to_rmod m) hi) as [rh|] eqn:Shi; [|reflexivity]. rewrite Slo, NE.
+    destruct (related hi lo) eqn:R; [reflexivity|]. exfalso.
+    rewrite M1, sub_put_other in R2; auto; [congruence|]. rewrite related_sym; exact R.
+Qed.
+
+Lemma fetch_eqb_refl e : fetch_eqb e e = true.
+Proof. destruct e; cbn; rewrite ?Nat.eqb_refl; reflexivity. Qed.
+
+Lemma swap_err_ok_intro M a b lo e :
+  lo = a \/ lo = b ->
+  (e = InvalidSwap \/ exists e', e = SwapFetchError lo e' /\ spec_get M lo = SpErr e') ->
+  swap_err_ok M a b e = true.
+Proof.
+  intros HL [->|(e' & -> & G)]; [reflexivity|]. unfold swap_err_ok.
+  assert (X : forall j, lo = j ->
+              ci_eqb lo j && match spec_get M j with SpErr fe' =>
+                  match e', fe' with
+                  | FunctionNotFound, FunctionNotFound => true
+                  | InvalidIndex, InvalidIndex => true
+                  | CardNotFound p, CardNotFound q => Nat.eqb p q
+                  | NoSubFunction p, NoSubFunction q => Nat.eqb p q
+                  | _, _ => false
+                  end | SpOk _ => false end = true).
+  { intros j <-. rewrite ci_eqb_refl, G. destruct e'; cbn; rewrite ?Nat.eqb_refl; reflexivity. }
+  destruct HL as [HL|HL]; rewrite (X _ HL); [reflexivity|apply orb_true_r].
+Qed.
+
+(* swap_cards is the swap of the specification, for every module and every two indices *)
+Theorem swap_cards_refines m a b :
+  match snd (swap_cards m a b) with
+  | SwOk => spec_swap (to_rmod m) a b = Some (to_rmod (fst (swap_cards m a b)))
+  | SwErr e => spec_swap (to_rmod m) a b = None /\ fst (swap_cards m a b) = m /\
+               swap_err_ok (to_rmod m) a b e = true
+  | SwPanic => False
+  end.
+Proof.
+  unfold swap_cards. destruct (ci_eqb a b) eqn:EQ.
+  - apply ci_eqb_eq in EQ. subst b. cbn [fst snd]. pose proof (get_card_sp m a) as G.
+    rewrite spec_swap_char, ci_eqb_refl.
+    destruct (get_card m a) as [c|e|]; [rewrite G; reflexivity| |contradiction].
+    destruct G as [G1 G2]. rewrite G1. split; [reflexivity|split; [reflexivity|]].
+    apply (swap_err_ok_intro _ a a a); eauto.
+  - rewrite swap_legacy_body. destruct (ci_ltb a b) eqn:LT.
+    + assert (P : swap_post m b a a (swap_body m b a)).
+      { apply swap_body_refines; [rewrite ci_eqb_sym; exact EQ|].
+        apply related_cases; [rewrite ci_eqb_sym; exact EQ|apply ci_ltb_asym; exact LT]. }
+      unfold swap_post in P. rewrite (spec_swap_sym _ a b).
+      destruct (snd (swap_body m b a)); auto. destruct P as (P1 & P2 & P3). repeat split; auto.
+      apply (swap_err_ok_intro _ a b a); auto.
+    + assert (P : swap_post m a b b (swap_body m a b)).
+      { apply swap_body_refines; [exact EQ|]. apply related_cases; assumption. }
+      unfold swap_post in P.
+      destruct (snd (swap_body m a b)); auto. destruct P as (P1 & P2 & P3). repeat split; auto.
+      apply (swap_err_ok_intro _ a b b); auto.
+Qed.
+
+Lemma spec_swap_involutive M a b M1 : spec_swap M a b = Some M1 -> spec_swap M1 a b = Some M.
+Proof.
+  rewrite spec_swap_char. destruct (sub M a) as [ra|] eqn:Sa; [|discriminate].
+  destruct (sub M b) as [rb|] eqn:Sb; [|discriminate].
+  assert (NA : ci_indices a <> []) by (eapply sub_nonempty; eauto).
+  assert (NB : ci_indices b <> []) by (eapply sub_nonempty; eauto).
+  destruct (ci_eqb a b) eqn:EQ.
+  - intros [= <-]. rewrite spec_swap_char, Sa, Sb, EQ. reflexivity.
+  - destruct (related a b) eqn:R; [discriminate|]. intros [= <-].
+    assert (R' : related b a = false) by (rewrite related_sym; exact R).
+    assert (S1 : sub (put M a rb) b = Some rb) by (rewrite sub_put_other; auto).
+    assert (Sa1 : sub (put (put M a rb) b ra) a = Some rb).
+    { rewrite sub_put_other by auto. eapply sub_put_same; eauto. }
+    assert (Sb1 : sub (put (put M a rb) b ra) b = Some ra) by (eapply sub_put_same; eauto).
+    rewrite spec_swap_char, Sa1, Sb1, EQ, R. f_equal.
+    rewrite (put_comm M a b) by auto. rewrite (put_put_same _ a) by auto.
+    rewrite (put_comm (put M b ra) a b) by auto. rewrite (put_put_same _ b) by auto.
+    rewrite (put_sub_id M b rb Sb). apply put_sub_id; exact Sa.
+Qed.
+
+(* swapping twice is the identity *)
+Theorem swap_involutive m a b m1 :
+  swap_cards m a b = (m1, SwOk) -> swap_cards m1 a b = (m, SwOk).
+Proof.
+  intros E. pose proof (swap_cards_refines m a b) as H. rewrite E in H. cbn [fst snd] in H.
+  apply spec_swap_involutive in H. pose proof (swap_cards_refines m1 a b) as H2.
+  destruct (swap_cards m1 a b) as [m2 [|e|]]; cbn [fst snd] in H2.
+  - rewrite H in H2. assert (H3 : to_rmod m = to_rmod m2) by congruence. apply to_rmod_inj in H3. subst. reflexivity.
+  - destruct H2 as [H2 _]. congruence.
+  - contradiction.
+Qed.
+
+(* a card and its own ancestor (or descendant) cannot be swapped, whatever the argument order *)
+Theorem swap_ancestor_fails_unchanged m a b :
+  ci_eqb a b = false -> related a b = true ->
+  exists e, swap_cards m a b = (m, SwErr e).
+Proof.
+  intros NE R. pose proof (swap_cards_refines m a b) as H.
+  assert (S : spec_swap (to_rmod m) a b = None).
+  { rewrite spec_swap_char, NE, R. destruct (sub (to_rmod m) a), (sub (to_rmod m) b); reflexivity. }
+  destruct (swap_cards m a b) as [m' [|e|]]; cbn [fst snd] in H.
+  - congruence.
+  - destruct H as (_ & -> & _). eauto.
+  - contradiction.
+Qed.
+
+Lemma step_refines_swap m a b :
+  spec_step (to_rmod m) (OpSwap a b) =
+  (to_rmod (fst (step m (OpSwap a b))), abs_obs (snd (step m (OpSwap a b)))).
+Proof.
+  cbn [spec_step step]. pose proof (swap_cards_refines m a b) as H.
+  destruct (swap_cards m a b) as [m' [|e|]]; cbn [fst snd] in *.
+  - rewrite H. reflexivity.
+  - destruct H as (-> & -> & _). reflexivity.
+  - contradiction.
+Qed.
+
+(* ---- the three repaired findings, as witnesses on the pre-repair definitions ---- *)
 
 Definition wit_module : module :=
   Module [] [([102%N], {| f_args := []; f_cards := [CScalarInt 1; CCall [103%N] [CScalarInt 2]] |})] [].
 
-(* A-25: swap_cards(i, i) succeeds and replaces the card by ScalarNil *)
-Lemma swap_same_refuted :
-  exists m i, fst (step m (OpSwap i i)) <> m /\ snd (step m (OpSwap i i)) = ObUnit /\
-              known_swap_same m (OpSwap i i) = true.
+(* A-25 (repaired by cc4ee9f): swap_cards(i, i) succeeded and replaced the card by ScalarNil *)
+Lemma swap_same_legacy_refuted :
+  exists m i c, get_card m i = ROk c /\ snd (swap_cards_legacy m i i) = SwOk /\
+                fst (swap_cards_legacy m i i) <> m /\ swap_cards m i i = (m, SwOk).
 Proof.
-  exists wit_module, (mk_index 0 [0]). split; [|split]; [|vm_compute; reflexivity..].
-  vm_compute. discriminate.
+  exists wit_module, (mk_index 0 [0]), (CScalarInt 1).
+  split; [vm_compute; reflexivity|]. split; [vm_compute; reflexivity|].
+  split; [vm_compute; discriminate|vm_compute; reflexivity].
 Qed.
 
-(* A-26: insert_card beyond the end of a Call's argument list reports Ok and inserts nothing *)
-Lemma call_insert_refuted :
-  exists m idx x, step m (OpInsert idx x) = (m, ObUnit) /\
-                  spec_step (to_rmod m) (OpInsert idx x) = (to_rmod m, RoErr (CardNotFound 1)) /\
-                  known_call_insert m (OpInsert idx x) = true.
+(* A-26 (repaired by bf83e3d): insert_child past the end of a call returned Ok and dropped the card *)
+Lemma call_insert_legacy_refuted :
+  exists c i x, insert_child_legacy c i x = IOk c /\ node_insert (to_rose x) i (to_rose c) = None /\
+                insert_child c i x = IErr x.
 Proof.
-  exists wit_module, (mk_index 0 [1; 2]), CAbort. repeat split; vm_compute; reflexivity.
+  exists (CCall [103%N] [CScalarInt 2]), 2, CAbort. repeat split; vm_compute; reflexivity.
 Qed.
 
-(* get_card reports a nested miss one level too low; get_card_mut reports the level of the index *)
-Lemma get_depth_refuted :
-  exists m idx, get_card m idx = RErr (CardNotFound 0) /\ get_card_mut m idx = RErr (CardNotFound 1) /\
-                known_get_depth m (OpGet idx) = true.
+(* A-41 (repaired by 3cefd5a): get_card reported a nested miss one level too low *)
+Lemma get_depth_legacy_refuted :
+  exists m idx, get_card_legacy m idx = RErr (CardNotFound 0) /\ get_card_mut m idx = RErr (CardNotFound 1) /\
+                get_card m idx = RErr (CardNotFound 1).
 Proof.
   exists wit_module, (mk_index 0 [1; 5]). repeat split; vm_compute; reflexivity.
 Qed.
 
-(* remove after insert does not restore a fixed slot: insert overwrote the old child *)
+(* remove after insert does not restore a fixed slot: insert overwrote the old child
+   (documented behaviour of insert_child: "replace the child at the index if not [a list]") *)
 Lemma remove_insert_fixed_refuted :
   exists m idx x m1 m2 y,
     insert_card m idx x = ROk (m1, tt) /\ remove_card m1 idx = ROk (m2, y) /\ y = x /\ m2 <> m.
@@ -1117,55 +1652,4 @@ Proof.
   eexists. eexists. eexists. split; [vm_compute; reflexivity|]. split; [vm_compute; reflexivity|].
   split; [reflexivity|]. discriminate.
 Qed.
-
-Theorem walk_complete_unique_partial m idx x :
-  In (idx, x) (walk_cards m) -> get_card_mut m idx = ROk x /\ get_card m idx = ROk x.
-Proof. exact (walk_lookup m idx x). Qed.
-
-Definition covered_op (o : op) : bool :=
-  match o with OpSwap _ _ | OpWalk => false | _ => true end.
-
-(* one API call of the kind-by-kind model is the same call of the rose-tree specification,
-   for every module and every argument outside the decidable known-finding classes
-   (proved for all calls but swap_cards and walk_cards, see the comment at the end of the file) *)
-Theorem step_refines_partial m o :
-  known_class m o = false -> covered_op o = true ->
-  spec_step (to_rmod m) o = (to_rmod (fst (step m o)), abs_obs (snd (step m o))).
-Proof.
-  unfold known_class. intros K C. apply orb_false_elim in K. destruct K as [K K3].
-  apply orb_false_elim in K. destruct K as [K1 K2].
-  destruct o; try discriminate C.
-  - destruct (step_refines_get m idx K3) as [H1 H2]. rewrite H2. exact H1.
-  - destruct (step_refines_get_mut m idx) as [H1 H2]. rewrite H2. exact H1.
-  - apply step_refines_insert. exact K2.
-  - apply step_refines_remove.
-  - apply step_refines_replace.
-  - apply step_refines_kids.
-  - apply step_refines_replace_child.
-Qed.
-
-(* Statements of C16 that are NOT proved here (time budget); each is checked on every generated
-   case by the correspondence run through the specification oracle (code 2), and the parts that
-   are proved are named *_partial:
-
-   step_refines (full):  forall m o, known_class m o = false ->
-       spec_step (to_rmod m) o = (to_rmod (fst (step m o)), abs_obs (snd (step m o)))
-     missing: o = OpSwap a b  (needs: spec_get/spec_replace at unrelated paths commute; the CardIndex
-     order puts the ancestor second; a ScalarNil placeholder has no children) and o = OpWalk
-     (walk_cards m abstracts to spec_walk (to_rmod m)).
-
-   swap_involutive:  forall m a b m1, known_swap_same m (OpSwap a b) = false ->
-       swap_cards m a b = (m1, SwOk) -> swap_cards m1 a b = (m, SwOk)
-     proved fragment: swap_fail_unchanged (a failing swap restores the module).
-
-   remove_insert:  forall m idx x m1, known_call_insert m (OpInsert idx x) = false ->
-       insert_card m idx x = ROk (m1, tt) -> the parent position is a list position ->
-       remove_card m1 idx = ROk (m, x)
-     refuted for fixed slots (remove_insert_fixed_refuted), as documented for insert_child.
-
-   edit_local:  an edit at idx changes no card whose index is not idx, an extension of it, or
-     (for list positions) a later sibling.  Follows from rmodify touching only [upd kids i].
-
-   walk_complete_unique:  forall m idx c, get_card_mut m idx = ROk c <-> In (idx, c) (walk_cards m),
-     and NoDup (map fst (walk_cards m)).   proved fragment: walk_complete_unique_partial (<-). *)
 
